@@ -141,7 +141,7 @@ Lemma inv_advance x s p k :
 Proof.
   intros [[S0 I0 NL RL B ND X NDP HL HR P O D] [C2 C9]] Ho Hd Hp Hpl Hskip. split.
   - constructor; simpl.
-    + eapply invS_same; eauto.
+    + same_S.
     + assumption.
     + assumption.
     + assumption.
@@ -258,7 +258,7 @@ Qed.
 Lemma inv_set_mem x s v : inv x s -> inv x (set_mem s v).
 Proof.
   intros [[S0 I0 NL RL B ND X NDP HL HR P O D] HC]. split.
-  - constructor; simpl; try assumption. eapply invS_same; eauto.
+  - constructor; simpl; try assumption. same_S.
   - eapply invC_same; eauto.
 Qed.
 
@@ -272,7 +272,7 @@ Proof.
     apply qp_intro; simpl; auto.
     + split.
       * constructor; simpl; auto.
-        -- eapply invS_same; eauto.
+        -- same_S.
         -- intros _. rewrite Ho. auto.
       * eapply invC_same; eauto. unfold settled; simpl. intros _ e. congruence.
     + right. split; [eauto | unfold meas; simpl; lia].
@@ -381,7 +381,7 @@ Proof.
            assert (HIa : inv x (set_delay (set_errno (ht_clear (set_files (set_pos s p) fs')) true) true)).
            { unfold ht_clear. split.
              - constructor; simpl in *; auto.
-               + eapply invS_same; eauto.
+               + same_S.
                + unfold hqi in *. simpl in *. rewrite Hhq. simpl. intros i [].
                + lia.
              - constructor; intros bl Hb Hs; exfalso; unfold settled in Hs; simpl in Hs; specialize (Hs eq_refl); discriminate. }
